@@ -12,6 +12,7 @@ ESC = "\x1b"
 # spec table, from the statement / ECMA-48: 3x / 4x with x = BLACK..WHITE = 0..7
 NAME_IDX = {'BLACK': 0, 'RED': 1, 'GREEN': 2, 'YELLOW': 3, 'BLUE': 4, 'MAGENTA': 5, 'CYAN': 6, 'WHITE': 7}
 CANON_GRAY = "g(0|[1-9][0-9]*)"
+ELEM_RE = "[0-9:]+"        # one SGR parameter (possibly with ':' sub-parameters)
 
 
 def strip_pattern():
@@ -148,7 +149,8 @@ COLOR_KINDS = T.one_of(
     T.tuple(T.int, T.str, T.int), T.tuple(T.none, T.int, T.int), T.tuple(T.bool, T.int, T.int),
     T.list(T.int, T.int), T.dict({}), T.dict({'r': T.int}))
 # colours passed through make(): the strict ones (lenient values are covered by _make_seq_element)
-STRICT_COLOR = T.one_of(T.none, T.str, T.int, T.tuple(T.int, T.int, T.int), T.float, T.tuple(T.int, T.int))
+STRICT_COLOR = T.one_of(T.none, T.str, T.int, T.tuple(T.int, T.int, T.int), T.float)
+STRICT_BG = T.one_of(T.none, T.str, T.int, T.tuple(T.int, T.int))
 FLAG = T.one_of(T.none, T.bool)
 
 G = globals()
@@ -179,8 +181,8 @@ CONTRACTS = [
              result_spec=T.str,
              call_raises=[(ValueError, "denote(color) is None")]),
     Contract(M, '_ColorSequences.make', prop=PROP, spec_globals=G, level='top',
-             params={'cls': T.cls('ak.color:_ColorSequences'), 'color': STRICT_COLOR, 'bg_color': STRICT_COLOR,
-                     'bold': FLAG, 'faint': T.bool, 'underline': T.bool, 'blink': T.bool, 'crossed': FLAG,
+             params={'cls': T.cls('ak.color:_ColorSequences'), 'color': STRICT_COLOR, 'bg_color': STRICT_BG,
+                     'bold': FLAG, 'faint': T.bool, 'underline': T.bool, 'blink': T.bool, 'crossed': T.bool,
                      'no_color': T.bool, 'make_bytes': T.bool},
              requires=_MAKE_REQ,
              ensures={
@@ -188,13 +190,30 @@ CONTRACTS = [
                  'bytes': f"implies(make_bytes, result == (shape(codes({_ARGS}))[0].encode(), "
                           f"shape(codes({_ARGS}))[1].encode()))",
                  'no_color': "implies(no_color, not result[0] and not result[1])",
-                 'strippable': "implies(not make_bytes, strippable(result[0]) and strippable(result[1]))",
                  'valid_args': "no_color or (ok_color(color) and ok_color(bg_color))",
              },
              raises={'invalid': ((ValueError,), "not no_color and not (ok_color(color) and ok_color(bg_color))")},
              result_spec=_make_result_spec,
              call_raises=[(ValueError, "not no_color and not (ok_color(color) and ok_color(bg_color))")],
              max_paths=20000),
+    # --- strippability, compositionally: every sequence element is a word over digits and ':'
+    # (proved on _make_seq_element for all colour kinds), and any ';'-joined list of such words between
+    # ESC[ and m is a word of the strip pattern read from the code (proved on make with the elements opaque)
+    Contract(M, '_ColorSequences._make_seq_element', name='_ColorSequences._make_seq_element/alphabet',
+             prop=PROP, spec_globals=G, level='top',
+             params={'cls': T.cls('ak.color:_ColorSequences'), 'color': COLOR_KINDS, 'is_bg': T.bool},
+             ensures={'element_alphabet': "fullmatch(ELEM_RE, result)"},
+             raises={'any': ((Exception,), None)},
+             result_spec=T.str, call_raises=[(ValueError, 'MAY')]),
+    Contract(M, '_ColorSequences.make', name='_ColorSequences.make/strippable',
+             prop=PROP, spec_globals=G, level='top',
+             params={'cls': T.cls('ak.color:_ColorSequences'),
+                     'color': T.one_of(T.none, T.opaque('colour')), 'bg_color': T.one_of(T.none, T.opaque('colour')),
+                     'bold': FLAG, 'faint': T.bool, 'underline': T.bool, 'blink': T.bool, 'crossed': T.bool,
+                     'no_color': T.bool, 'make_bytes': T.const(False)},
+             ensures={'strippable_prefix': "strippable(result[0])",
+                      'strippable_suffix': "strippable(result[1])"},
+             raises={'any': ((ValueError,), None)}),
     Contract(M, 'ColorFmt.__init__', prop=PROP, spec_globals=G, level='top',
              params={'self': T.obj('ak.color:ColorFmt'), 'color': STRICT_COLOR, 'bg_color': T.one_of(T.none, T.int),
                      'bold': FLAG, 'faint': T.bool, 'underline': T.bool, 'blink': T.bool, 'crossed': T.bool,
@@ -247,6 +266,7 @@ BOUNDED_SYMBOLIC = {'CHText.__str__': 3, 'CHText.plain_text': 3}
 
 USES = {
     '_ColorSequences.make': ['_ColorSequences._make_seq_element'],
+    '_ColorSequences.make/strippable': ['_ColorSequences._make_seq_element/alphabet'],
     'ColorFmt.__init__': ['_ColorSequences.make'],
     'ColorBytes.__init__': ['_ColorSequences.make'],
 }
@@ -341,6 +361,7 @@ CANARIES = [
      'expect': 'C09._ColorSequences._make_seq_element.value'},
     {'name': 'no_reset_suffix', 'module': M, 'function': '_ColorSequences.make',
      'old': 'color_suffix = "\\033[0m"', 'new': 'color_suffix = "\\033[m0"',
+     'combos': ['color:int', 'bg_color:none', 'bold:none'],
      'expect': 'C09._ColorSequences.make.shape'},
     {'name': 'chunk_str_drops_suffix', 'module': M, 'function': '_CHTextChunk.__str__',
      'old': '{self.c_suffix}', 'new': '', 'expect': 'C09._CHTextChunk.__str__.chunk_str'},
